@@ -191,3 +191,100 @@ def check_hist(inp, res, err):
 
 RUNTIME["report_histogram"] = {"gen": gen_hist, "call": call_hist, "check": check_hist,
                                "bounds": "one adapter (3 types), 3-12 reads with exact, edited (one substitution/insertion/deletion) and partial copies, rates 0.1/0.2/0.25"}
+
+
+# ------------------------------------------------------------------------------ C05 / C03: --pair-adapters
+def gen_pair(rng):
+    k = rng.randint(1, 3)
+    kinds = ["back", "front", "anywhere"]
+    a1 = [[rng.choice(kinds), rng.choice(ADAPTERS), f"f{i}"] for i in range(k)]
+    if k > 1 and rng.random() < 0.4:                 # two ranks sharing the R1 adapter sequence and type
+        a1[1] = [a1[0][0], a1[0][1], "f1"]
+    a2 = [[rng.choice(kinds), rng.choice(ADAPTERS), f"s{i}"] for i in range(k)]
+    return {"adapters1": a1, "adapters2": a2, "action": rng.choice(["trim", "mask", "lowercase", "retain", None]),
+            "pairs": [[_gen_read(rng), _gen_read(rng)] for _ in range(rng.randint(1, 3))]}
+
+
+def _interval(m, n):
+    """the part of a read of length n that trimming this match keeps"""
+    from cutadapt.adapters import RemoveBeforeMatch
+    return (m.rstop, n) if isinstance(m, RemoveBeforeMatch) else (0, m.rstart)
+
+
+def call_pair(inp):
+    from dnaio import SequenceRecord
+    from cutadapt.modifiers import PairedAdapterCutter
+    from cutadapt.info import ModificationInfo
+    from cutadapt.adapters import RemoveBeforeMatch
+    ads1, ads2 = _mk_adapters(inp["adapters1"]), _mk_adapters(inp["adapters2"])
+    try:
+        pac = PairedAdapterCutter(ads1, ads2, action=inp["action"])
+    except Exception as e:       # noqa  (retain is only allowed for 3' adapters)
+        return {"invalid": str(e)}
+    rows = []
+    for i, (s1, s2) in enumerate(inp["pairs"]):
+        r1, r2 = SequenceRecord(f"p{i}", s1, "I" * len(s1)), SequenceRecord(f"p{i}", s2, "5" * len(s2))
+        i1, i2 = ModificationInfo(r1), ModificationInfo(r2)
+        try:
+            o1, o2 = pac(r1, r2, i1, i2)
+        except ValueError as e:
+            if "retain" in str(e).lower() or inp["action"] == "retain":
+                return {"invalid": str(e)}
+            raise
+        ranks = []
+        for k, (x, y) in enumerate(zip(ads1, ads2)):
+            m1, m2 = x.match_to(s1), y.match_to(s2)
+            ranks.append(None if m1 is None or m2 is None else
+                         [m1.score + m2.score, m1.errors + m2.errors, list(_interval(m1, len(s1))), list(_interval(m2, len(s2))),
+                          isinstance(m1, RemoveBeforeMatch), isinstance(m2, RemoveBeforeMatch)])
+        rows.append({"out": [[o1.sequence, o1.qualities], [o2.sequence, o2.qualities]], "ranks": ranks,
+                     "recorded": [[m.adapter.name for m in i1.matches], [m.adapter.name for m in i2.matches]]})
+    return {"rows": rows, "with_adapters": pac.with_adapters}
+
+
+def _apply(action, s, q, iv, front):
+    a, b = iv
+    if action == "trim":
+        return [s[a:b], q[a:b]]
+    if action == "mask":
+        return ["N" * a + s[a:b] + "N" * (len(s) - b), q]
+    if action == "lowercase":
+        return [s[:a].lower() + s[a:b].upper() + s[b:].lower(), q]
+    if action is None:
+        return [s, q]
+    return None
+
+
+def check_pair(inp, res, err):
+    if err:
+        return ["no_raise:" + err]
+    if "invalid" in res:
+        return []
+    bad = []
+    n_with = 0
+    for i, (row, (s1, s2)) in enumerate(zip(res["rows"], inp["pairs"])):
+        best = None
+        for k, r in enumerate(row["ranks"]):     # best total score, then fewest total errors, then the first rank
+            if r is not None and (best is None or r[0] > row["ranks"][best][0] or (r[0] == row["ranks"][best][0] and r[1] < row["ranks"][best][1])):
+                best = k
+        if best is None:
+            if row["out"] != [[s1, "I" * len(s1)], [s2, "5" * len(s2)]]:
+                bad.append(f"C05:pair {i}: no rank matches on both mates, but the pair was changed: {row['out']}")
+            if row["recorded"] != [[], []]:
+                bad.append(f"C05:pair {i}: no rank matches on both mates, but matches were recorded: {row['recorded']}")
+            continue
+        n_with += 1
+        r = row["ranks"][best]
+        if row["recorded"] != [[inp["adapters1"][best][2]], [inp["adapters2"][best][2]]]:
+            bad.append(f"C05:pair {i}: recorded matches {row['recorded']} are not the two adapters of the best rank {best}")
+        w1 = _apply(inp["action"], s1, "I" * len(s1), r[2], r[4])
+        w2 = _apply(inp["action"], s2, "5" * len(s2), r[3], r[5])
+        if w1 is not None and (row["out"][0] != w1 or row["out"][1] != w2):
+            bad.append(f"C03:pair {i}: action {inp['action']} gives {row['out']}, expected {[w1, w2]} (kept intervals {r[2]}, {r[3]})")
+    if res["with_adapters"] != n_with:
+        bad.append(f"C05:with_adapters {res['with_adapters']}, pairs with a rank matching both mates {n_with}")
+    return bad[:4]
+
+
+RUNTIME["pair_adapters"] = {"gen": gen_pair, "call": call_pair, "check": check_pair,
+                            "bounds": "1-3 ranks (sometimes sharing the R1 adapter), 3 adapter types, 5 actions, 1-3 pairs"}
